@@ -108,3 +108,45 @@ Theorem C02_equals_literal_end_to_end : forall D has_ns hcode rm rn rr re_ok ns 
       (fun n => exists m, path_den D has_ns isteps (if iabs then root_node else n) m /\ node_value D m = lit).
 Proof. exact C02_eq_literal_end_to_end. Qed.
 Print Assumptions C02_equals_literal_end_to_end.
+
+(* ------------------------------------------------------------------ *)
+(* END TO END, from the TEXT, further predicate forms.  Atoms A are existence tests  E  and literal
+   comparisons  E = 'lit'  for predicate-free paths E; [asem D has_ns A n] is what A says about n. *)
+From XP.Proofs Require Import EndToEndPred2.
+
+Theorem C02_end_to_end_and_or : forall D has_ns hcode rm rn rr re_ok ns,
+  hash_ok hcode (all_nodes D) ->
+  forall (isor : bool) p abs steps a1 a2,
+  path_syntax p -> steps_of p = (abs, steps) -> atom_ok a1 -> atom_ok a2 ->
+  xok (with_pred p (pred_andor isor a1 a2)) ->
+  List.length steps + 1 < max_build_depth ->
+  2 + asize a1 <= max_build_depth -> 2 + asize a2 <= max_build_depth ->
+  exists q, compile re_ok (print_min (with_pred p (pred_andor isor a1 a2))) ns = Ok q /\
+    selects_where2 D has_ns hcode rm rn rr q abs steps
+      (fun n => if isor then asem D has_ns a1 n \/ asem D has_ns a2 n
+                else asem D has_ns a1 n /\ asem D has_ns a2 n).
+Proof. exact C02_andor_end_to_end. Qed.
+Print Assumptions C02_end_to_end_and_or.
+
+Theorem C02_end_to_end_two_predicates : forall D has_ns hcode rm rn rr re_ok ns,
+  hash_ok hcode (all_nodes D) ->
+  forall p abs steps a1 a2,
+  path_syntax p -> steps_of p = (abs, steps) -> atom_ok a1 -> atom_ok a2 ->
+  xok (with_pred2 p (apx a1) (apx a2)) ->
+  List.length steps + 2 < max_build_depth ->
+  2 + asize a1 <= max_build_depth -> 1 + asize a2 <= max_build_depth ->
+  exists q, compile re_ok (print_min (with_pred2 p (apx a1) (apx a2))) ns = Ok q /\
+    selects_where2 D has_ns hcode rm rn rr q abs steps (fun n => asem D has_ns a1 n /\ asem D has_ns a2 n).
+Proof. exact C02_twice_end_to_end. Qed.
+Print Assumptions C02_end_to_end_two_predicates.
+
+Theorem C02_end_to_end_not : forall D has_ns hcode rm rn rr re_ok ns,
+  hash_ok hcode (all_nodes D) ->
+  forall p abs steps a1,
+  path_syntax p -> steps_of p = (abs, steps) -> last_not_ancestor steps -> atom_ok a1 ->
+  xok (with_pred p (pred_not a1)) ->
+  List.length steps + 1 < max_build_depth -> 2 + asize a1 <= max_build_depth ->
+  exists q, compile re_ok (print_min (with_pred p (pred_not a1))) ns = Ok q /\
+    selects_where2 D has_ns hcode rm rn rr q abs steps (fun n => ~ asem D has_ns a1 n).
+Proof. exact C02_not_end_to_end. Qed.
+Print Assumptions C02_end_to_end_not.
